@@ -565,7 +565,7 @@ func c09Forget(p *core.Prog, r *core.Report) {
 					if !isRet || len(ret.Results) != 3 {
 						return false
 					}
-					k, isK := ret.Results[1].(*ssa.Const)
+					k, isK := core.ReturnValues(ret)[1].(*ssa.Const)
 					return !isK || k.Value == nil || k.Value.String() != "false"
 				}, nil, func(from, to *ssa.BasicBlock) bool {
 					if ifi, isIf := from.Instrs[len(from.Instrs)-1].(*ssa.If); isIf && ifi.Cond == okV {
